@@ -14,7 +14,8 @@ RULE = ('a case = one container argument "-l/--list" bound to a destination of o
         'vector<string> tuple<int,string,int> bitset<16> vector<bool> map<string,int>) x a subset of the options '
         '{separator, clear, sort, unique / unique-or-refuse, multi-value} (+ check / format / initial content) x a flat '
         'token sequence with duplicates x a cut of that sequence into 1..3 uses (optionally with empty uses and empty '
-        'elements ",,"), later uses spelled as "-l v", "--list v" or as free values. Non-trivial: the configuration is '
+        'elements ",,"), later uses spelled as "-l v", "--list v" or as free values; optionally a second argument, the '
+        'boolean flag "-f/--flag", used at any position between the uses. Non-trivial: the configuration is '
         'accepted and at least one token reaches the destination.')
 TRUSTED_BASE = [
     'model ArgH/Cont.v written by hand from typed_arg.hpp / container_adapter.hpp / key_value_container_adapter.hpp / '
@@ -25,13 +26,16 @@ TRUSTED_BASE = [
     'C++ harness harness/args_harness.cpp (g++ 12 -O1, ASan+UBSan), prog_args library sources compiled from the tree',
 ]
 ASSUMPTIONS = [
-    'the command line of a case consists of uses of the one container argument: "-l v" / "--list v" and free words; '
+    'the command line of a case consists of uses of the one container argument: "-l v" / "--list v" and free words, '
+    'and uses of the optional flag argument "-f" / "--flag"; '
     'value words do not start with a dash and are not one of the control characters ( ) ! (lexing is C01)',
     'theorems: fold / cut independence / clear once / sorted / checks on every element for all 18 kinds and every '
     'accepted option combination; content (placement), unique-drop and unique-refuse for the 11 ContainerAdapter kinds '
-    'over int; unique-drop for T[N]/std::array; positions for vector<bool>; overflow refusal for arrays, tuple, bitset. '
-    'vector<string> (unique, formats), map (pair format, key uniqueness) and the setters\' accept/refuse table '
-    '(setup_ok) beyond that only by correspondence',
+    'over int and for vector<string> (formats before the unique test); unique-drop for T[N]/std::array; positions for '
+    'vector<bool>; map<string,int>: pair format, first value for a key wins / existing keys keep their value, refusal '
+    'of duplicate keys; overflow refusal for arrays, tuple, bitset; free values: multi-value routing, a flag ends the '
+    'value list. The setters\' accept/refuse table is a theorem about the model (setup_ok) and tied to the code by '
+    'one case per refused option subset',
     'a use without elements (empty word, separators only) still counts for a cardinality: the fold theorems assume no '
     'cardinality (the default of containers) or no such use; the oracle does not judge tuple cases with such uses',
     'not in the slot pool of the harness, hence not covered: DynamicBitset destinations, multimap / unordered_map, '
@@ -68,15 +72,25 @@ def render_use(toks, sep, deco):
     return s
 
 
-def make_case(slot, opts, uses, spell, extra=''):
-    """uses: list of value strings; spell: per use 's' (-l v), 'l' (--list v), 'f' (free word)"""
+FLAG_TOK = 'arg:f,flag:b3:init=0'
+
+
+def make_case(slot, opts, uses, spell, extra='', flag=None):
+    """uses: list of value strings (None for a use of the flag); spell: per use 's' (-l v), 'l' (--list v),
+    'f' (free word), 'F' (-f), 'G' (--flag); flag: True = define the flag argument even if it is not used"""
     words = []
     for u, sp in zip(uses, spell):
         if sp == 'f':
             words.append(u)
+        elif sp == 'F':
+            words.append('-f')
+        elif sp == 'G':
+            words.append('--flag')
         else:
             words += ['-l' if sp == 's' else '--list', u]
-    return 'H:f=0 arg:l,list:%s:%s %s' % (slot, '/'.join(opts), A.argv_tok(words)) + extra
+    if flag is None:
+        flag = any(sp in 'FG' for sp in spell)
+    return 'H:f=0 arg:l,list:%s:%s %s%s' % (slot, '/'.join(opts), (FLAG_TOK + ' ') if flag else '', A.argv_tok(words)) + extra
 
 
 def cuts(seq, maxparts=3):
@@ -221,6 +235,49 @@ def gen_cases(tier, rng):
                         # a free value although the argument does not take multiple values
                         if not multi and len(uses) > 1 and rng.below(8) == 0:
                             cases.append(make_case(kind + str(n % 4), o, uses, [spells[0]] + ['f'] * (len(uses) - 1)))
+    # another argument (a boolean flag) between the uses: it ends the value list, a following free value does not
+    # reach the container (no positional argument: refused); keyed uses after the flag continue the fold
+    cases.append(make_case('vi0', ['multi'], ['1', '2', None, '9'], 'sfFf'))
+    cases.append(make_case('vi0', ['multi'], ['1', '2', None], 'sfF'))
+    cases.append(make_case('vi0', ['multi'], ['1', None, '2', '3'], 'sFsf'))
+    cases.append(make_case('vi0', ['multi'], [None, '1', '2'], 'Fsf'))
+    cases.append(make_case('vi0', ['multi'], [None, '1'], 'Ff'))
+    cases.append(make_case('vi0', ['multi'], ['1', None, None], 'sFG'))
+    cases.append(make_case('vi0', ['multi'], ['1', '2'], 'sf', flag=True))
+    for kind in KINDS:
+        sc = seq_class(kind)
+        for base in ([], ['sort'], ['uniq'], ['clear']):
+            if not opts_valid(kind, base):
+                continue
+            for multi in (0, 1):
+                o = base + (['multi'] if multi else [])
+                sep = sep_of(kind, o)
+                for seq in (SEQS[sc][0], SEQS[sc][2]):
+                    for cut in cuts(seq):
+                        uses = [render_use(p_, sep, 0) for p_ in cut]
+                        for pos in range(len(uses) + 1):
+                            for style in ('key', 'free', 'mixed'):
+                                if style != 'key' and len(uses) == 1 and pos == 0:
+                                    continue
+                                sp = ['s' if rng.below(2) else 'l']
+                                for j in range(1, len(uses)):
+                                    if style == 'key':
+                                        sp.append('s' if rng.below(2) else 'l')
+                                    elif style == 'free':
+                                        sp.append('f')
+                                    else:
+                                        sp.append('f' if rng.below(2) else 's')
+                                u2 = uses[:pos] + [None] + uses[pos:]
+                                s2 = sp[:pos] + ['F' if rng.below(2) else 'G'] + sp[pos:]
+                                if pos == 0 and style != 'key':
+                                    # the first container use must be keyed in any case
+                                    s2[1] = 's'
+                                cases.append(make_case(kind + str((n + pos) % 4), o, u2, s2))
+                                if rng.below(10) == 0:
+                                    k2 = rng.below(len(u2) + 1)
+                                    cases.append(make_case(kind + str((n + pos) % 4), o, u2[:k2] + [None] + u2[k2:],
+                                                           s2[:k2] + ['F'] + s2[k2:]))
+                        n += 1
     # checks and formats reach every single element: a violating element at every position
     for kind in INT_LIST + ['ai', 'ri', 'bs', 'vb']:
         for extra in ([], ['multi'], ['uniq'] if kind in HAS_ITER else ['multi']):
@@ -301,6 +358,9 @@ def gen_cases(tier, rng):
                        'one case) x initial contents x %d token sequences per kind x every cut into <= 3 uses%s; '
                        'spelling of later uses (-l / --list / free value), empty elements and empty uses seeded'
                        % (max(len(v) for v in SEQS.values()), ' (seeded 1/4 sample of the multi-use cuts)' if quick else ''),
+                       'flag argument between the uses: 18 kinds x {plain, sort, uniq, clear} x multi on/off x 2 sequences x '
+                       'every cut into <= 3 uses x every position of the flag x later uses keyed / free / mixed (+ the '
+                       'flag twice, seeded)',
                        'violating element (check / conversion) at every position of a 4-element sequence x every cut',
                        'random: %d longer sequences with random cuts' % nrand]}
 
@@ -332,15 +392,27 @@ class Refuse(Exception):
 
 
 def parse_case(case):
+    """(slot, opts, words, flag) of the container argument; flag = None or (slot, [spellings], initial value)"""
     toks = case.split(' ')
     arg = [t for t in toks if t.startswith('arg:')]
-    if len(arg) != 1:
+    cont = [a for a in arg if kind_of(a.split(':', 3)[2]) != 'b']
+    flg = [a for a in arg if kind_of(a.split(':', 3)[2]) == 'b']
+    if len(cont) != 1 or len(flg) > 1:
         return None
-    _, key, slot, optstr = arg[0].split(':', 3)
+    _, key, slot, optstr = cont[0].split(':', 3)
     opts = [o for o in optstr.split('/') if o]
+    flag = None
+    if flg:
+        _, fkey, fslot, fopt = flg[0].split(':', 3)
+        spell = [('-' + w) if len(w) == 1 else ('--' + w) for w in fkey.split(',')]
+        init = int(fslot[1:]) >= 2
+        for o in fopt.split('/'):
+            if o.startswith('init='):
+                init = o[5:] == '1'
+        flag = (fslot, spell, init)
     av = [t for t in toks if t.startswith('argv:')][0][5:]
     words = [] if av == '-' else [bytes.fromhex(x).decode('latin-1') if x != '-' else '' for x in av.split(',')]
-    return slot, opts, words
+    return slot, opts, words, flag
 
 
 def _check(chk, t, kind):
@@ -364,7 +436,7 @@ def _check(chk, t, kind):
     return True
 
 
-def expected(slot, opts, words):
+def expected(slot, opts, words, flag=None):
     """('setup'|'err'|'ok', value) according to the property; value in the harness's canonical form, or a
     dict for vector<bool> (size is not determined by the property)"""
     kind = kind_of(slot)
@@ -385,15 +457,24 @@ def expected(slot, opts, words):
     # the uses: -l v / --list v / free words
     uses = []
     i = 0
+    open_list = False          # the value list of the container is open: free words belong to it
+    nflag = 0
     while i < len(words):
         w = words[i]
-        if w.startswith('-'):
+        if flag and w in flag[1]:
+            nflag += 1         # another argument ends the value list
+            open_list = False
+            if nflag > 1:
+                return 'err', None
+            i += 1
+        elif w.startswith('-'):
             if i + 1 >= len(words) or words[i + 1].startswith('-'):
                 return 'err', None
             uses.append(words[i + 1])
+            open_list = True
             i += 2
         else:
-            if not multi or not uses:
+            if not multi or not open_list:
                 return 'err', None
             uses.append(w)
             i += 1
@@ -560,10 +641,9 @@ def spec_check(case, ir, mr):
     pc = parse_case(case)
     if pc is None:
         return None
-    slot, opts, words = pc
+    slot, opts, words, flag = pc
     kind = kind_of(slot)
-    # forward_list initial content is assigned in order (not pushed to the front)
-    exp, val = expected(slot, opts, words)
+    exp, val = expected(slot, opts, words, flag)
     if exp is None:
         return None
     if kind == 'fi':
@@ -578,10 +658,15 @@ def spec_check(case, ir, mr):
         return None if outcome == 'err' else 'the values had to be refused but were accepted: ' + prop
     if outcome != 'ok':
         return 'the values were refused (%s); expected content %s' % (ir.split(' ## ')[-1].split(' ')[0], val)
-    got = prop.split(' ', 1)[1] if ' ' in prop else ''
-    if not got.startswith(slot + '='):
+    vals = dict(x.split('=', 1) for x in prop.split(' ')[1:] if '=' in x)
+    if slot not in vals:
         return 'unexpected result ' + prop
-    got = got[len(slot) + 1:]
+    if flag:
+        used = any(w in flag[1] for w in words)
+        want = '1' if (used != flag[2]) else '0'
+        if vals.get(flag[0]) != want:
+            return 'flag %s is %s, expected %s' % (flag[0], vals.get(flag[0]), want)
+    got = vals[slot]
     if isinstance(val, dict):
         m = re.match(r'^(\d+)\[([\d,]*)\]$', got)
         if not m:
@@ -606,7 +691,7 @@ def _expected_fwd(slot, opts, words, exp, val):
     for o in opts:
         if o.startswith('init='):
             init = [int(x) for x in o[5:].split('~')]
-    if not init or 'sort' in opts or ('clear' in opts and any(w.startswith('-') for w in words)):
+    if not init or 'sort' in opts or ('clear' in opts and any(w in ('-l', '--list') for w in words)):
         return exp, val
     # expected() pushed the initial content to the front one by one: undo that for the part before
     cur = [int(x) for x in val[1:-1].split(',')] if val != '[]' else []
@@ -618,8 +703,10 @@ def classify(case, ir, mr):
     pc = parse_case(case)
     if pc is None:
         return 'fold'
-    slot, opts, words = pc
+    slot, opts, words, flag = pc
     kind = kind_of(slot)
+    if flag and any(w in flag[1] for w in words):
+        return 'value-list-end'
     if kind in ('ai', 'ri') and ('uniq' in opts or 'uniq!' in opts):
         return 'array-unique-unfilled'
     if kind == 'vb':
@@ -635,10 +722,14 @@ def histogram_keys(case, mr):
     pc = parse_case(case)
     if pc is None or not mr:
         return []
-    slot, opts, words = pc
+    slot, opts, words, flag = pc
     keys = [kind_of(slot) + ':' + mr.split(' ')[0]]
     nuse = sum(1 for w in words if not w.startswith('-'))
     keys.append('uses=%d' % nuse)
+    if flag:
+        keys.append('flag-defined')
+        if any(w in flag[1] for w in words):
+            keys.append('flag-used:' + mr.split(' ')[0])
     for o in ('clear', 'sort', 'uniq', 'uniq!', 'multi'):
         if o in opts:
             keys.append(o)
@@ -649,20 +740,28 @@ def shrink(case):
     pc = parse_case(case)
     if pc is None:
         return
-    slot, opts, words = pc
+    slot, opts, words, flag = pc
     toks = case.split(' ')
     head = toks[0]
+    ftok = [t for t in toks if t.startswith('arg:') and kind_of(t.split(':', 3)[2]) == 'b']
+    fspell = flag[1] if flag else []
+
+    def line(o, w, keep_flag=True):
+        f = (ftok[0] + ' ') if (ftok and keep_flag) else ''
+        return '%s arg:l,list:%s:%s %s%s' % (head, slot, '/'.join(o), f, A.argv_tok(w))
+    # drop the flag argument when it is not used
+    if ftok and not any(w in fspell for w in words):
+        yield line(opts, words, False)
     # drop one option
     for i in range(len(opts)):
-        o2 = opts[:i] + opts[i + 1:]
-        yield '%s arg:l,list:%s:%s %s' % (head, slot, '/'.join(o2), A.argv_tok(words))
-    # drop one use (key + value, or a free word)
+        yield line(opts[:i] + opts[i + 1:], words)
+    # drop one use (key + value, a free word, a flag word)
     i = 0
     while i < len(words):
-        step = 2 if words[i].startswith('-') else 1
+        step = 1 if (words[i] in fspell or not words[i].startswith('-')) else 2
         w2 = words[:i] + words[i + step:]
         if w2 and w2[0].startswith('-'):
-            yield '%s arg:l,list:%s:%s %s' % (head, slot, '/'.join(opts), A.argv_tok(w2))
+            yield line(opts, w2)
         i += step
     # drop one element of a value
     kind = kind_of(slot)
@@ -675,7 +774,7 @@ def shrink(case):
             for j in range(len(parts)):
                 v = sep.join(parts[:j] + parts[j + 1:])
                 if not v.startswith('-'):
-                    yield '%s arg:l,list:%s:%s %s' % (head, slot, '/'.join(opts), A.argv_tok(words[:i] + [v] + words[i + 1:]))
+                    yield line(opts, words[:i] + [v] + words[i + 1:])
 
 
 CLAIM = {
@@ -684,8 +783,9 @@ CLAIM = {
             'every list of uses, the destination equals the fold of the flat element sequence (cont_fold), hence is '
             'independent of how the sequence is cut into uses, lists and free values (cont_cut_independent); earlier '
             'content is discarded exactly once (cont_clear_once); sorting yields ascending order; checks reach every '
-            'element; unique data drops resp. refuses duplicates; arrays, tuple and bitset refuse what they cannot '
-            'hold. Two defects of the pinned tree are proved on the pinned element steps (unique test of arrays on '
+            'element; unique data drops resp. refuses duplicates (int containers, vector<string> after formatting, map '
+            'keys); arrays, tuple and bitset refuse what they cannot hold; a free value after another argument (a '
+            'flag) never reaches the container (cont_flag_ends_value_list). Two defects of the pinned tree are proved on the pinned element steps (unique test of arrays on '
             'unfilled slots, vector<bool> of size 1 loses position 1) and repaired by fixes/C06-1, C06-2. The model is '
             'tied to the code by a correspondence check through the real Handler (all kinds x all option subsets x cuts).',
     'note': 'trusted: Coq kernel, extraction (ExtrOcamlBasic), the hand-written model (validated by correspondence on '
